@@ -227,7 +227,8 @@ def _generate_ctls_with_code_map(snapshot, start, end, config, rst_handler, code
                     continue
                 if _find_terminal_instruction(snapshot, ctls, b_end, end, rst_handler) < end:
                     done = False
-                    break
+                # The blocks have changed, so they must be recomputed
+                break
         if done:
             break
 
